@@ -476,7 +476,7 @@ class ShmLiveness(Harness):
     """C09 bounded liveness: a request that idle datasets can make room for is granted within R retries."""
 
     name = "shm-evict-liveness"
-    properties = ("C09",)
+    properties = ("C09", "C08")
     engine = "E1-crosshair"
     rule = "one path = pre-state shape x reader-close subset x lottery outcome; non-trivial = eviction was needed"
     assumptions = [
